@@ -326,11 +326,6 @@ Section Container.
   Hypothesis Hfile : file = v2_file chi clo dpad ipad payload ib.
   Hypothesis Hioff : ioff = match ib with Some _ => 51 + dpad + blen payload + ipad | None => 0 end.
   Hypothesis Hh : h = mkv2 chi clo (51 + dpad) (blen payload) ioff.
-  Hypothesis Hchi : chi < two64.
-  Hypothesis Hclo : clo < two64.
-  Hypothesis Hpay : 0 < blen payload.
-  Hypothesis Hlen : blen file < two63.
-
   Lemma v2_file_split :
     file = (pragma ++ enc_v2hdr h ++ zerosN dpad) ++ payload ++ zerosN ipad ++ match ib with Some x => x | None => [] end.
   Proof. rewrite Hfile, Hh, Hioff. unfold v2_file. rewrite <- !app_assoc. reflexivity. Qed.
@@ -341,6 +336,12 @@ Section Container.
     rewrite v2_file_split, !blen_app, blen_pragma, blen_enc_v2hdr, !blen_zerosN.
     destruct ib; [lia|rewrite blen_nil; lia].
   Qed.
+
+  Hypothesis Hchi : chi < two64.
+  Hypothesis Hclo : clo < two64.
+  Hypothesis Hpay : 0 < blen payload.
+  Hypothesis Hlen : blen file < two63.
+
 
   Lemma v2_read_version maxh : 10 <= maxh ->
     exists rest, read_header hdrdec maxh file = Ok ([], 2, rest, 11).
